@@ -49,7 +49,7 @@ type Opts struct {
 	// IDMayBeRejected: NewServer may legitimately refuse LocalID; the world then
 	// does not run and Outcome.IDRejected is set
 	IDMayBeRejected bool
-	NoListener bool
+	NoListener      bool
 }
 
 // DialAction is the scenario's decision for one outbound dial attempt.
@@ -82,14 +82,14 @@ type DialRec struct {
 
 // World is one execution: a Server, its peers, remote connections, monitors.
 type World struct {
-	T    *testing.T
-	O    Opts
-	Srv  *corebgp.Server
-	Lis  *memnet.Listener
+	T     *testing.T
+	O     Opts
+	Srv   *corebgp.Server
+	Lis   *memnet.Listener
 	Extra []*memnet.Listener // additional listeners (Opts.ExtraListeners)
-	Log  *Log
-	T0   time.Time
-	done chan struct{}
+	Log   *Log
+	T0    time.Time
+	done  chan struct{}
 
 	mu       sync.Mutex
 	cond     *sync.Cond
